@@ -851,6 +851,20 @@ def class_call_hook(cls, extra=None, model=None):
                         return val
                     except Unsupported:
                         pass
+            if len(parts) == 2 and parts[0] in ('cls', 'self') and hasattr(cls, 'resolve'):
+                # a method of the class under evaluation used as a value (handed to a primitive as converter): a callable that
+                # evaluates the method's own statements on its positional arguments
+                m = cls.resolve(parts[1])
+                if m is not None and isinstance(getattr(m, 'node', None), ast.FunctionDef) and not getattr(m.module, 'external', False):
+                    def method_value(*args, _m=m):
+                        params = [a.arg for a in _m.node.args.args]
+                        env = {}
+                        if params and params[0] in ('self', 'cls'):
+                            env[params[0]] = parts[0]
+                            params = params[1:]
+                        env.update(zip(params, args))
+                        return Evaluator(env, make(cls, _m.module), name_hook_for(_m.module, outer)).function(_m.node)
+                    return method_value
             if outer is not None:
                 try:
                     return outer(name)
